@@ -503,7 +503,7 @@ def run_case(case, seg, viol, stats, sample):
                              "detail": dict(d, recomputed=sorted(round(w, 5) for w in want)[:6], tolerance=tb)})
         return res
 
-    SIM.reset({"monitor": True})
+    SIM.reset({"max_solves": 4000, "max_wall": 90.0, "monitor": True})
     sols, ev = call()
     stats["runs"] += 1
     nsolves = SIM.solve_index
@@ -557,7 +557,7 @@ def run_case(case, seg, viol, stats, sample):
             stats["planted_ok"] += 1
     # adversarial optimum choice
     for a in seg["advs"]:
-        SIM.reset({"adversary": a, "monitor": True})
+        SIM.reset({"max_solves": 4000, "max_wall": 90.0, "adversary": a, "monitor": True})
         sols2, ev2 = call()
         stats["runs"] += 1
         adv = judge_solution(sols2, ev2, f"adversary:{a}")
@@ -571,7 +571,7 @@ def run_case(case, seg, viol, stats, sample):
                          "detail": dict(detail0, plain=sols[0].score, adversary=sols2[0].score, seed=a)})
         elif sols and plain and adv and sorted(map(canon.jdump, plain[0][0])) != sorted(map(canon.jdump, adv[0][0])):
             stats["adv_differs"] += 1
-    SIM.reset({"jitter": seg["jitter"], "monitor": True})
+    SIM.reset({"max_solves": 4000, "max_wall": 90.0, "jitter": seg["jitter"], "monitor": True})
     sols3, ev3 = call()
     stats["runs"] += 1
     j = judge_solution(sols3, ev3, "jitter")
@@ -581,7 +581,7 @@ def run_case(case, seg, viol, stats, sample):
     if nsolves:
         k = frng.randrange(nsolves)
         kind = frng.choice(["infeasible", "abnormal", "not_solved", "incumbent", "verify"])
-        SIM.reset({"faults": [{"at": k, "kind": kind, "seed": k}], "monitor": False})
+        SIM.reset({"max_solves": 4000, "max_wall": 90.0, "faults": [{"at": k, "kind": kind, "seed": k}], "monitor": False})
         sols4, ev4 = call()
         stats["runs"] += 1
         stats["faults"] += 1
